@@ -182,7 +182,8 @@ Inductive cj :=
 | JCall (m : meth) (good notif : bool)     (* {"method": m, "params": good or bad[, "id"]} *)
 | JEnv (sealed : bool) (k : ckey) (n : N) (p : cj)  (* parses as EncryptedRequest *)
 | JBatch (l : list cj)                     (* JSON array *)
-| JJunk (obj : bool)                       (* any other JSON object / non-object *)
+| JJunk (obj : bool)                       (* any other JSON value; obj: it still parses as a
+                                              jsonrpc_core::Call (an invalid one) *)
 | JRes (ok : bool) (nk : option ckey)      (* JSON-RPC response; nk: key agreed by init *)
 | JResBatch (l : list cj).
 
@@ -210,20 +211,25 @@ Record cw := mkW { w_open : bool; w_tok : bool; w_accts : N }.
 Definition is_obj (v : cj) : bool :=
   match v with JCall _ _ _ | JEnv _ _ _ _ | JJunk true | JRes _ _ => true | _ => false end.
 
-(** One JSON-RPC call object (jsonrpc_core::Call) at position [pos] of POST number [e]. *)
-Definition call1 (e pos : N) (st : cw * option ckey) (v : cj) : (cw * option ckey) * option cj :=
-  let '(w, nk) := st in
+(** One JSON-RPC call object (jsonrpc_core::Call) at position [pos] of POST number [e].
+    Third state component: what the client will know about the token after this POST, if an
+    open_wallet ran in it. The requests of one POST are written before any of its replies is
+    read, so from an open_wallet on, the token they carry is stale for the rest of the POST. *)
+Definition cst := (cw * option ckey * option bool)%type.
+
+Definition call1 (e pos : N) (st : cst) (v : cj) : cst * option cj :=
+  let '(w, nk, pt) := st in
   match v with
   | JCall m good notif =>
     let rep (b : bool) (k : option ckey) := if notif then None else Some (JRes b k) in
     match m with
-    | MInit => if good then ((w, Some (e, pos)), rep true (Some (e, pos))) else (st, rep false None)
-    | MOpen => if good then ((mkW true (negb notif) (w_accts w), nk), rep true None)
+    | MInit => if good then ((w, Some (e, pos), pt), rep true (Some (e, pos))) else (st, rep false None)
+    | MOpen => if good then ((mkW true false (w_accts w), nk, Some (negb notif)), rep true None)
                else (st, rep false None)
-    | MClose => if good then ((mkW false (w_tok w) (w_accts w), nk), rep true None)
+    | MClose => if good then ((mkW false (w_tok w) (w_accts w), nk, pt), rep true None)
                 else (st, rep false None)
     | MCreate => if good && w_open w && w_tok w
-                 then ((mkW true true (w_accts w + 1), nk), rep true None)
+                 then ((mkW true true (w_accts w + 1), nk, pt), rep true None)
                  else (st, rep false None)
     | MAccounts => (st, rep (good && w_open w && w_tok w) None)
     | MTxs => (st, rep (good && w_open w) None)
@@ -232,7 +238,7 @@ Definition call1 (e pos : N) (st : cw * option ckey) (v : cj) : (cw * option cke
   | _ => (st, Some (JRes false None))   (* method not found / invalid request *)
   end.
 
-Fixpoint calls (e pos : N) (st : cw * option ckey) (l : list cj) : (cw * option ckey) * list cj :=
+Fixpoint calls (e pos : N) (st : cst) (l : list cj) : cst * list cj :=
   match l with
   | [] => (st, [])
   | v :: r =>
@@ -241,15 +247,19 @@ Fixpoint calls (e pos : N) (st : cw * option ckey) (l : list cj) : (cw * option 
     (st'', match rep with Some x => x :: reps | None => reps end)
   end.
 
+Definition settle (st : cst) : cw * option ckey :=
+  let '(w, nk, pt) := st in
+  (match pt with Some b => mkW (w_open w) b (w_accts w) | None => w end, nk).
+
 Definition chandle (e : N) (w : cw) (v : cj) : cw * option ckey * option cj :=
   match v with
   | JBatch l =>
     if forallb is_obj l then
-      let '(st, reps) := calls e 0 (w, None) l in
-      (fst st, snd st, match reps with [] => None | _ => Some (JResBatch reps) end)
+      let '(st, reps) := calls e 0 (w, None, None) l in
+      (settle st, match reps with [] => None | _ => Some (JResBatch reps) end)
     else (w, None, Some (JRes false None))            (* -32700 Parse error *)
   | JJunk false | JResBatch _ => (w, None, Some (JRes false None))
-  | _ => let '(st, rep) := call1 e 0 (w, None) v in (fst st, snd st, rep)
+  | _ => let '(st, rep) := call1 e 0 (w, None, None) v in (settle st, rep)
   end.
 
 Definition csys : sys :=
